@@ -348,6 +348,7 @@ def rel_families():
     fams += [('adu', 'Zero', gk, 'optimised-vs-simple', 'random') for gk in ('L1', 'L2sq', 'KL')]
     fams += [('pg', fk, 'L2sq', 'resume', 'lam_callable') for fk in ('L1', 'Box')]
     fams += [(sol, 'Zero', 'L2sq', 'resume', 'projection') for sol in ('landweber', 'kaczmarz', 'sd')]
+    fams += [(sol, 'Zero', 'L2sq', 'resume', 'nonlinear') for sol in ('landweber', 'kaczmarz', 'sd')] * 3
     fams += [('sd', 'Zero', 'L2sq', 'resume', 'ls_object'), ('kaczmarz', 'Zero', 'L2sq', 'resume', 'omega_list')]
     fams += [('pdhg', fk, gk, 'resume') for fk in SL.REL_F for gk in SL.REL_G]
     fams += [('pg', fk, 'L2sq', 'resume') for fk in SL.REL_F]
@@ -543,7 +544,7 @@ def run(ctx):
 
     # ---- 3. relational driver (two real runs compared; deterministic family sweep + seeded extras) ----
     fams = rel_families()
-    rtasks = [(fam, zlib.crc32(('/'.join(fam)).encode())) for fam in fams]
+    rtasks = [(fam, zlib.crc32(('/'.join(fam)).encode()) + i) for i, fam in enumerate(fams)]
     rnd = random.Random(ctx.seed * 7919 + 11)
     nextra = 300 if quick else 6000
     rtasks += [(fams[rnd.randrange(len(fams))], rnd.randrange(2 ** 31)) for _ in range(nextra)]
